@@ -696,6 +696,9 @@ func (e *Enc) applyContract(fc *FuncContract, key, site string, sig *types.Signa
 	if fc.Trusted {
 		e.used["assumed contract: "+fc.Key] = true
 	}
+	if fc.Skip {
+		e.used["assumed contract of an in-repo function whose body is outside the subset (not verified): "+fc.Key] = true
+	}
 	env := e.calleeEnv(fc, sig, sfn, c, args, argTypes, bindings)
 	requires, ensures := fc.Requires, fc.Ensures
 	crossMode := (fc.Mode == "bv") != e.bv
